@@ -355,12 +355,13 @@ type Interp struct {
 	onExtCall func(site ssa.Instruction, tag string, args []AV) // invocation of a caller-supplied callback
 	globals   map[*ssa.Global]AV                                // known initial values of package-level variables
 	profile   map[string]int
+	execEdge  map[[2]*ssa.BasicBlock]bool // CFG edges found executable (any activation)
 	execInstr map[ssa.Instruction]bool // instructions reached on executable paths
 }
 
 func newInterp(w *World) *Interp {
 	ip := &Interp{w: w, maxDepth: 24, maxSteps: 150000, inprog: map[string]*memoEntry{}, done: map[string]doneEntry{}, minHit: 1 << 30, faultSeen: map[string]bool{},
-		overrides: map[ssa.Value]AV{}, execInstr: map[ssa.Instruction]bool{}}
+		overrides: map[ssa.Value]AV{}, execInstr: map[ssa.Instruction]bool{}, execEdge: map[[2]*ssa.BasicBlock]bool{}}
 	ip.globals = w.globalInits()
 	return ip
 }
@@ -740,6 +741,7 @@ func (ip *Interp) val(fr *frame, v ssa.Value) AV {
 }
 
 func (ip *Interp) takeEdge(fr *frame, from, to *ssa.BasicBlock, st Store) {
+	ip.execEdge[[2]*ssa.BasicBlock{from, to}] = true
 	k := [2]int{from.Index, to.Index}
 	newEdge := !fr.edge[k]
 	fr.edge[k] = true
